@@ -108,6 +108,7 @@ def run(index, rep):
     rep.guard(doc, index, rep, disp)
     rep.guard(effect, index, rep, setters, disp)
     rep.guard(nomut, index, rep)
+    rep.guard(kept_iterators, index, rep)
     rep.guard(override, index, rep)
     rep.guard(keys, index, rep, setters, disp)
     rep.guard(data_setters, index, rep)
@@ -1086,6 +1087,19 @@ def str_eval(node, var, value):
         raise AnalysisError(f"head-count override: key transform `{norm_src(node)}` is outside the recognised string idioms")
 
     return ev(node)
+
+
+def kept_iterators(index, rep):
+    """an option value must reach every round: a one-shot iterator kept on the parameters object delivers it to the first round only"""
+    rule = "C13.OVERRIDE"
+    from .memo import kept_one_shot_iterators
+    hits = kept_one_shot_iterators(index, [PARAMS, RUN, SCEN])
+    for rel, st, attr, n in hits:
+        rep.violation(rule, f"kept-iterator:self.{attr}",
+                      f"self.{attr} is bound to a one-shot iterator and read at {n} place(s): its first reader exhausts it, so what it carries (an "
+                      "option's values) reaches the first consumer only - later rounds run as if the option had not been given", loc=loc(rel, st))
+    if not hits:
+        rep.ok(rule, "no one-shot iterator is kept on an object and read twice", detail="zip/map/filter/iter/generator values stored in attributes")
 
 
 def override(index, rep):
